@@ -118,6 +118,29 @@ pub fn do_marker(ctx: &mut Ctx, letter: char, seg: &[u8], prefix: &[u8]) {
     }
 }
 
+/// two markers in a row: "^X" seg1 "^Y" seg2 — every switch, including the return to Latin-1 by ^8 after a non-Latin codepage
+pub fn do_marker2(ctx: &mut Ctx, x: char, seg1: &[u8], y: char, seg2: &[u8]) {
+    let mut b = vec![b'^', x as u8];
+    b.extend_from_slice(seg1);
+    b.push(b'^');
+    b.push(y as u8);
+    b.extend_from_slice(seg2);
+    do_dec(ctx, &b, true);
+    if seg1.contains(&b'^') || seg2.contains(&b'^') { return; }
+    let (ex, ey) = match (spec_enc(x), spec_enc(y)) { (Some(a), Some(b)) => (a, b), _ => return };
+    let mut want = String::new();
+    if x == '8' { want.push_str("^8"); }
+    want.push_str(&dec_bytes(ex, seg1));
+    if y == '8' { want.push_str("^8"); }
+    want.push_str(&dec_bytes(ey, seg2));
+    let got = real_dec(&b);
+    if got.as_deref() != Some(want.as_str()) {
+        // a multi-byte lead byte at the end of seg1 swallowing the caret is the recorded trail-byte ingredient, not a marker fault
+        let sig = if dec_bytes(ex, seg1).ends_with('\u{fffd}') { "c10/marker2/dangling-lead-byte".to_string() } else { format!("c10/marker2/{}{}", x, y) };
+        ctx.violation(&sig, "bytes after a second marker are not interpreted in the codepage LFS assigns to it", &format!("cp.dec {}", hex(&b)), &cps(&want), &format!("{:?}", got.map(|s| cps(&s))));
+    }
+}
+
 pub fn resolve(outdir: &std::path::Path) {
     // turn the model's plan lines into strings by running encoding_rs on each segment, with the code's own table
     let text = std::fs::read_to_string(outdir.join("model.txt")).unwrap_or_default();
@@ -234,6 +257,15 @@ pub fn run(ctx: &mut Ctx) {
         do_marker(ctx, l, &[0xef, 0xbb, 0xbf, b'a'], b"");
         do_marker(ctx, l, b"abc", &[0xff, 0xfe, b'q']);
     }
+    // every ordered pair of markers, with a high byte after each
+    for x in "LGCETBJHSK8".chars() {
+        for y in "LGCETBJHSK8".chars() {
+            for (s1, s2) in [(&[0xE0u8, 0x61][..], &[0xE9u8, 0x62][..]), (&[0x61][..], &[0xF8, 0xFE, 0x20][..]), (&[][..], &[0xC4][..]), (&[0x41, 0x42][..], &[0x63, 0x61, 0x66, 0xE9][..])] {
+                do_marker2(ctx, x, s1, y, s2);
+            }
+        }
+    }
+    ctx.exhaustive_domains.push("every ordered pair of the eleven markers with high bytes after each (codepage switches incl. the return to Latin-1 by ^8)".into());
     ctx.exhaustive_domains.push(format!("every byte value after every marker (^L ^G ^C ^E ^T ^B ^J ^H ^S ^K ^8), alone and followed by ASCII{}", if quick { "" } else { "; all 65536 byte pairs after every marker" }));
     for _ in 0..(if quick { 3000 } else { 300_000 }) {
         let k = ctx.rng.below(14) as usize;
